@@ -1,6 +1,6 @@
 (* FlowStmts.v — C14: soundness of the optimality certificate for min-cost circulations with bounds
    (weak duality / complementary slackness). Proof in FlowFacts.v. *)
-From RS Require Import Base Network Tour Flow.
+From RS Require Import Base Network NetSpec Tour Flow.
 
 (* If a feasible circulation f satisfies complementary slackness w.r.t. some node potentials (checked by the
    executable [check_optimal]), then no feasible circulation is cheaper. *)
@@ -71,3 +71,24 @@ Definition stmt_flow_cost_is_tour_cost : Prop :=
     feasible net f = true -> is_decomposition nw net f tours = true ->
     flow_cost net f =
       spawning_cost nw ty slots * Z.of_nat (length tours) + z_sum (map (fun t => compute_costs nw t) tours).
+
+(** ** the circulation problem handed to the flow solver is feasible (the solver unwraps its answer) *)
+(* one vehicle per demanded unit, each running overflow start depot -> node -> overflow end depot, is a feasible
+   circulation, provided the overflow depot is large enough for the total lower bound (which is how load sizes it) and
+   the per-arc bound admits the lower bounds *)
+Definition overflow_depot_id (nw : network) : Z := let '(od, _, _) := nw_overflow nw in od.
+Definition stmt_circulation_feasible : Prop :=
+  forall nw ty slots,
+    net_wf_b nw = true -> In ty (type_ids nw) ->
+    codes_distinct nw ty slots ->
+    (forall x, In x (service_nodes nw ty ++ map fst slots) -> is_depot (nd nw x) = false) ->
+    (forall m c, In (m, c) slots -> 0 <= c <= arc_upper_bound nw ty slots) ->
+    (forall s, In s (service_nodes nw ty) -> 0 <= number_of_vehicles_required_to_serve nw ty s /\
+       match maximal_formation_count_for nw s with Some l => 0 <= l <= arc_upper_bound nw ty slots | None => True end) ->
+    In (overflow_depot_id nw) (depot_ids nw) ->
+    total_lower_bound nw ty slots <= capacity_of nw (overflow_depot_id nw) ty ->
+    (* the overflow depot's nodes are the ones the arcs are built from *)
+    (forall x, In x (service_nodes nw ty ++ map fst slots) ->
+       In (get_start_depot_node nw (overflow_depot_id nw)) (predecessors nw ty x) /\
+       In x (predecessors nw ty (get_end_depot_node nw (overflow_depot_id nw)))) ->
+    exists f, feasible (build_flow_network nw ty slots) f = true.
